@@ -646,8 +646,14 @@ func main() {
 	stage := flag.String("stage", "readers", "readers | sites | decoders")
 	from := flag.Int("from", 0, "internal: first case of a decoders child")
 	stride := flag.Int("stride", 1, "internal: distance between the cases of a decoders child")
+	inFile := flag.String("in", "", "internal: input file of a child")
+	dirArg := flag.String("dir", "", "internal: directory argument of a child")
 	_ = flag.String("replay", "", "unused: cases are regenerated from the seed")
 	flag.Parse()
+	if *ch == "repolines" {
+		childRepoLines(*inFile, *dirArg, *from)
+		return
+	}
 	if *ch == "decoders" {
 		childDecoders(*from, *stride, *seed, *tier)
 		return
